@@ -77,6 +77,7 @@ func (p PerfectPolicy) Stream(string, string, uint64, uint64, time.Duration) Str
 
 // Network is the shared medium.
 type Network struct {
+	unreach    map[string]bool // hosts towards which packet writes fail
 	mu         sync.Mutex
 	seed       uint64
 	start      time.Time
@@ -247,6 +248,26 @@ func (n *Network) NewEndpoint(ip string, port int, handler PeerHandler) *Endpoin
 
 // Remove unregisters the endpoint (the address becomes unreachable, and a new
 // endpoint may take it: a restart).
+// SetHostUnreachable makes every packet write towards addr fail at the sender (the routers answer "host unreachable").
+func (n *Network) SetHostUnreachable(addr string, on bool) {
+	n.mu.Lock()
+	defer n.mu.Unlock()
+	if n.unreach == nil {
+		n.unreach = map[string]bool{}
+	}
+	if on {
+		n.unreach[addr] = true
+	} else {
+		delete(n.unreach, addr)
+	}
+}
+
+func (n *Network) hostUnreachable(addr string) bool {
+	n.mu.Lock()
+	defer n.mu.Unlock()
+	return n.unreach[addr]
+}
+
 func (n *Network) Remove(ep *Endpoint) {
 	n.mu.Lock()
 	if n.eps[ep.addr] == ep {
@@ -285,7 +306,7 @@ func (e *Endpoint) WriteToAddress(b []byte, a memberlist.Address) (time.Time, er
 		e.net.emit(Event{Kind: "pkt-after-shutdown", Src: e.addr, Dst: a.Addr, Data: append([]byte(nil), b...)})
 		return now, &net.OpError{Op: "write", Net: "udp", Err: errors.New("use of closed network connection")}
 	}
-	if e.unreachable[a.Addr] {
+	if e.unreachable[a.Addr] || e.net.hostUnreachable(a.Addr) {
 		e.SendErrors++
 		e.mu.Unlock()
 		e.net.emit(Event{Kind: "pkt-send-error", Src: e.addr, Dst: a.Addr})
